@@ -53,6 +53,8 @@ inductive Op
   | move (main : Option Utxo) (targets : List String) (fee : Int)
   | msweep (w : String) (moved main : Option Utxo) (fee : Int)
   | shares (fee : Int) (n : Nat)
+  | sharesN (fee : Int) (ns : List Nat)
+  | redeemN (w : String) (main : Option Utxo) (reqs : List Req) (fee : Int) (cl : Bool) (times : Nat)
 
 def parseOp (line : String) : Option Op :=
   match splitWs line with
@@ -64,6 +66,14 @@ def parseOp (line : String) : Option Op :=
     pure (.move (← parseOptUtxo main) (splitList targets) (← fee.toInt?))
   | ["msweep", _, w, moved, main, fee] => do
     pure (.msweep w (← parseOptUtxo moved) (← parseOptUtxo main) (← fee.toInt?))
+  | ["sharesN", fee, ns] => do
+    let ns ← parseNats ns
+    if ns.isEmpty || ns.any (· = 0) then none else pure (.sharesN (← fee.toInt?) ns)
+  | ["redeemN", _, w, main, reqs, fee, shape, pre, times] => do
+    let _ ← parseNats pre
+    let t ← times.toNat?
+    if t = 0 then none else
+    pure (.redeemN w (← parseOptUtxo main) (← (splitList reqs).mapM parseReq) (← fee.toInt?) (← parseShape shape) t)
   | ["shares", fee, n] => do
     let n ← n.toNat?
     if n = 0 then none else pure (.shares (← fee.toInt?) n)
@@ -76,6 +86,11 @@ def model (line : String) : String :=
   | some (.move main targets fee) => showRes (move main targets fee)
   | some (.msweep w moved main fee) => showRes (msweep w moved main fee)
   | some (.shares fee n) => "shares=" ++ showList (feeShares fee n)
+  -- the distribution is a pure function of (fee, n): every evaluation of one function value
+  -- gives what a fresh one gives
+  | some (.sharesN fee ns) => "shares=" ++ "|".intercalate (ns.map fun n => showList (feeShares fee n))
+  | some (.redeemN w main reqs fee cl t) =>
+    " | ".intercalate (List.replicate t (showRes (redeem w main reqs fee cl)))
   | none => "bad-op"
 
 def parsePair (s : String) : Option (Nat × Nat) :=
@@ -109,6 +124,24 @@ def monitor (op obs : String) : String :=
       | some ss => verdict (holdsShares fee n ss) "fee-shares"
       | none => "FAIL unparsable-observation"
     else "FAIL unparsable-observation"
+  | some (.sharesN fee ns) =>
+    if obs.startsWith "shares=" then
+      let parts := (obs.drop 7).toString.splitOn "|"
+      if parts.length ≠ ns.length then "FAIL unparsable-observation" else
+      match parts.mapM parseInts with
+      | some sss =>
+        verdict ((List.zip ns sss).all fun (n, ss) => holdsShares fee n ss) "fee-shares-on-reused-distribution"
+      | none => "FAIL unparsable-observation"
+    else "FAIL unparsable-observation"
+  | some (.redeemN w main reqs fee cl t) =>
+    let parts := obs.splitOn " | "
+    if parts.length ≠ t then "FAIL unparsable-observation" else
+    match parts.mapM (fun p => if p.startsWith "err:" then some none else (parseTx p).map some) with
+    | none => "FAIL unparsable-observation"
+    | some txs =>
+      verdict (txs.all fun
+        | none => true
+        | some tx => holdsRedeem w main reqs fee cl tx) "redemption-conservation-on-reused-distribution"
   | some o =>
     if obs.startsWith "err:" then "ok" else
     match parseTx obs with
@@ -119,6 +152,6 @@ def monitor (op obs : String) : String :=
       | .redeem w main reqs fee cl => verdict (holdsRedeem w main reqs fee cl tx) "redemption-conservation"
       | .move main targets fee => verdict (holdsMove main targets fee tx) "moving-funds-conservation"
       | .msweep w moved main fee => verdict (holdsMsweep w moved main fee tx) "moved-funds-sweep-conservation"
-      | .shares _ _ => "FAIL bad-op"
+      | _ => "FAIL bad-op"
 
 def main (args : List String) : IO UInt32 := driverMain model monitor args
